@@ -144,6 +144,9 @@ func c03Build(v c03Val, seed int64) any {
 		case "pkstruct":
 			return &c03KeyS{A: v.L[0].S, B: v.L[1].S}
 		}
+		if x, ok := c03BuildExtra(v); ok { // structs with methods (c03_history.go)
+			return x
+		}
 		order := c03Perm(len(v.K), seed, salt)
 		switch v.T {
 		case "map":
@@ -1159,6 +1162,8 @@ func c03Replay(e *Env) error {
 		if len(seen) != 1 || seen[want] == 0 {
 			e.Rep.Violate(Violation{Key: "date-format-conversion", What: "reproduced", Broken: "correspondence convertDateFormat", Replay: map[string]any{"format_hex": rc.FormatHex}})
 		}
+	case "history", "overlap":
+		return c03ReplayMore(e, rc.Kind, f.Case)
 	default:
 		return fmt.Errorf("C03 replay: unknown case kind %q", rc.Kind)
 	}
@@ -1173,7 +1178,10 @@ func runC03(e *Env) error {
 	}
 	c03TempMaps(e)
 	c03EvalOrder(e)
-	r.Rule = "(g) evaluation order of 12 hash-literal / include-with entries observed through callbacks, 25 renders each, with two fault positions; (f) one render looping over thousands of short-lived maps with forced collections in between; (e) regression corpora with required outputs (8 pinned defects 30×, 25 repaired defects 200×, 1 child process each); " +
+	r.Rule = "(j) one list of cases (Go structs with value- and pointer-receiver methods and embedded structs handed in by value and by pointer along four routes, the regression corpora, random programs) rendered in pristine child processes in forward, reverse and random order and in this process: the same bytes after every history; " +
+		"(i) every map / hash-literal / loop form, struct case and re-entered loop with render A stopped before each of its writes (≤ 16 positions) while render B of the same template runs on the same engine: both print what they print alone; " +
+		"(h) loops re-entered through a recursive macro, self-include and mutual include over nested lists / maps vs a walk in Go; " +
+		"(g) evaluation order of 12 hash-literal / include-with entries observed through callbacks, 25 renders each, with two fault positions; (f) one render looping over thousands of short-lived maps with forced collections in between; (e) regression corpora with required outputs (8 pinned defects 30×, 25 repaired defects 200×, 1 child process each); " +
 		"(a) random programs over maps (12 Go map types incl. float keys with a NaN, array/struct keys and interface{} keys of mixed types that print alike, " +
 		"3–16 entries, 34 loop/filter forms + 6 failing ones, 17 hash-literal forms incl. duplicate keys, include-with, macros): " +
 		"30 in-process renders on fresh engines with a fresh insertion order each, sampled cases also in 3 child processes; " +
@@ -1221,6 +1229,20 @@ func runC03(e *Env) error {
 		cj, _ := json.Marshal(c)
 		r.Seen("addr:"+string(cj), true)
 		r.Hit("address-probe")
+	}
+	// (h) loops entered again while they run; (i) renders that overlap in time; (j) render histories of the process
+	t0 := time.Now()
+	if err := c03Reentry(e); err != nil {
+		return err
+	}
+	c03Overlap(e)
+	t1 := time.Now()
+	if err := c03History(e); err != nil {
+		return err
+	}
+	r.Note(fmt.Sprintf("re-entered loops + overlapping renders: %.1fs; render histories: %.1fs", t1.Sub(t0).Seconds(), time.Since(t1).Seconds()))
+	if r.Full() {
+		return nil
 	}
 	// (a) random programs
 	n := e.N(2500, 60000)
